@@ -256,6 +256,31 @@ def check(ctx, rep):
             rep.bad("T-SPEC", "T-SPEC:class:unit", isu.where(), "unit character class %s lacks %s" % (scanai.mask_str(t), scanai.mask_str(need & ~t)))
         else:
             rep.ok("T-SPEC", "class:unit", isu.where(), "unit class %s contains the grammar's ASCII unit characters and bytes 0x81-0xFF (0x80 is excluded by `cur > 128`; no database unit needs it, see C15)" % scanai.mask_str(t))
+    # scanner predicates: exact classes
+    S = D + "scanner::Scanner::"
+    expect = {
+        "is_digit": scanai.mask_range(48, 57),
+        "is_hex_digit": scanai.mask_range(48, 57) | scanai.mask_range(65, 70) | scanai.mask_range(97, 102),
+        "is_upper": scanai.mask_range(65, 90),
+        "is_lower": scanai.mask_range(97, 122),
+        "is_alpha": scanai.mask_range(65, 90) | scanai.mask_range(97, 122),
+        "is_alpha_num": scanai.mask_range(48, 57) | scanai.mask_range(65, 90) | scanai.mask_range(97, 122),
+        "is_space": scanai.mask_of(b" \t"),
+        "is_newline": scanai.mask_of(b"\r\n"),
+        "is_white_space": scanai.mask_of(b" \t\r\n"),
+    }
+    for nm, want in sorted(expect.items()):
+        fb = prog.get(S + nm)
+        if fb is None:
+            rep.gap("Scanner::" + nm, "-", "not found")
+            continue
+        t, f, u = scanai.byte_class(ai, fb.id)
+        n += 1
+        key = "scanner-class:%s" % nm
+        if t == want and not u:
+            rep.ok("T-SPEC", key, fb.where(), "true exactly for %s" % scanai.mask_str(want))
+        else:
+            rep.bad("T-SPEC", "T-SPEC:" + key, fb.where(), "Scanner::%s is true for %s, the grammar's class is %s (differs on %s)" % (nm, scanai.mask_str(t), scanai.mask_str(want), scanai.mask_str((t ^ want) | u)))
     # id start: parse_id rejects non-lowercase first chars
     pid = prog.get(D + "id::parse_id")
     if pid:
